@@ -222,7 +222,7 @@ func c02GenBlob(rng *kit.RNG, thorough bool) *c02Blob {
 
 func c02WriteSide(t *testing.T, rec *kit.Rec) {
 	env := rec.Env
-	n := env.Pick(160, 480)
+	n := env.Pick(160, 320)
 	var saves, packsAudited, blobsAudited, unpackedSaved, zeroShortcut int64
 	var backendSaves atomic.Int64
 	for ci := 0; ci < n; ci++ {
@@ -690,7 +690,7 @@ func c02MakeLie(fx *c02Fixture, f *c02File, lie *c02Lie, rng *kit.RNG) []byte {
 
 func c02ReadSide(t *testing.T, rec *kit.Rec) {
 	env := rec.Env
-	n := env.Pick(700, 4000)
+	n := env.Pick(700, 2400)
 	type fxKey struct {
 		v uint
 		c CompressionMode
